@@ -32,13 +32,15 @@ def Settled (e : Env) (σ : St) (t : Nat) : Prop :=
 
 def DoneIdleB (e : Env) (σ0 σ : St) : Prop :=
   ∀ t r, EligB e t r → (σ.tst t).done = true → (σ.tst t).forward = false →
-    ((σ0.tst t).stop = none → Settled e σ t) ∧ NoIdleBackAt e σ0 σ t r
+    ((σ0.tst t).stop = none → Settled e σ t) ∧
+    (∃ v, (σ.tst t).stop = some v ∧ v ≤ deadlineG e σ0 σ t) ∧ NoIdleBackAt e σ0 σ t r
 
 structure BIdleInv (e : Env) (σ0 σ : St) (tasks : List Nat) : Prop where
   inv : Inv e σ
   solid : Solid e σ
   nodup : tasks.Nodup
   leaf : ∀ t ∈ tasks, (e.taskD t).leaf = true
+  inrange : ∀ t ∈ tasks, t < σ.ts.size
   pending : ∀ t ∈ tasks, σ.tst t = σ0.tst t ∧ (σ.tst t).scheduled = false ∧ (σ.tst t).done = false ∧
     (∀ r i, usageOf (σ.led.get r i).usage t = none)
   ok : DoneIdleB e σ0 σ
@@ -121,7 +123,9 @@ theorem bIdleInv_step (e : Env) (wf : WF e) (σ0 σ : St) (tasks : List Nat) (t0
       fun dp hdp ho => by rw [hd dp hdp ho], fun s hs => by rw [hsu s hs]⟩
   refine ⟨updateContainers_inv e _ hinv1,
     closed_updateContainers (solid_closed e wf) _ (closed_scheduleTask (solid_closed e wf) wf σ t0 h.inv hlf0 trivial h.solid),
-    h.nodup.erase t0, fun t ht => h.leaf t (List.mem_of_mem_erase ht), ?_, ?_⟩
+    h.nodup.erase t0, fun t ht => h.leaf t (List.mem_of_mem_erase ht), ?_, ?_, ?_⟩
+  · intro t ht
+    rw [updateContainers_size, scheduleTask_size]; exact h.inrange t (List.mem_of_mem_erase ht)
   · intro t ht
     have htm : t ∈ tasks := List.mem_of_mem_erase ht
     have hne : t ≠ t0 := fun heq => by
@@ -139,11 +143,15 @@ theorem bIdleInv_step (e : Env) (wf : WF e) (σ0 σ : St) (tasks : List Nat) (t0
       have hok := scheduleTask_done e σ t hnd0 hd
       have hst : (σ0.tst t).stop = none → Settled e σ t := fun hns =>
         alapReady_settled e σ t hfw (by rw [heq0]; exact hns) hready
-      refine ⟨fun hns => (hsettled t (hst hns)).1, ?_⟩
-      intro L hL i hLi hid hon hnl
-      rw [deadlineG_congr e σ0 σ _ t (fun hns => (hsettled t (hst hns)).2)] at hid
       have hdl : deadlineG e σ0 σ t = deadlineOf e σ t := by
         unfold deadlineG deadlineOf; rw [heq0]; cases (σ0.tst t).stop <;> rfl
+      have hdc := deadlineG_congr e σ0 σ (updateContainers e (scheduleTask e σ t).1) t (fun hns => (hsettled t (hst hns)).2)
+      refine ⟨fun hns => (hsettled t (hst hns)).1, ?_, ?_⟩
+      · obtain ⟨v, hv, hle⟩ := scheduleTask_stop_le e wf σ t (h.inrange t hmem) hfw hel.el.effort hnd0 hok
+        refine ⟨v, by rw [updateContainers_leaf e _ t hel.el.leaf]; exact hv, ?_⟩
+        rw [hdc, hdl]; exact hle
+      intro L hL i hLi hid hon hnl
+      rw [hdc] at hid
       rw [hdl] at hid
       rw [updateContainers_led] at hL
       by_cases hic : i ≤ (initCursor e σ t).1
@@ -157,8 +165,11 @@ theorem bIdleInv_step (e : Env) (wf : WF e) (σ0 σ : St) (tasks : List Nat) (t0
         rw [this] at hon; exact Bool.noConfusion hon
     · have htsame := hsame t heq (Or.inl hel.el.leaf)
       rw [htsame] at hd hfw
-      obtain ⟨hst, hidle⟩ := h.ok t r hel hd hfw
-      refine ⟨fun hns => (hsettled t (hst hns)).1, ?_⟩
+      obtain ⟨hst, hend, hidle⟩ := h.ok t r hel hd hfw
+      refine ⟨fun hns => (hsettled t (hst hns)).1, ?_, ?_⟩
+      · obtain ⟨v, hv, hle⟩ := hend
+        refine ⟨v, by rw [htsame]; exact hv, ?_⟩
+        rw [deadlineG_congr e σ0 σ _ t (fun hns => (hsettled t (hst hns)).2)]; exact hle
       intro L hL i hLi hid hon hnl
       rw [deadlineG_congr e σ0 σ _ t (fun hns => (hsettled t (hst hns)).2)] at hid
       rw [updateContainers_led, scheduleTask_same e σ t0 t (Ne.symm heq) r L] at hL
@@ -208,7 +219,8 @@ theorem runScenario_doneIdleB (e : Env) (wf : WF e) (tr : Tree e) : DoneIdleB e 
   have hempty : ∀ r i, ((prepare e (initState e)).led.get r i).usage = [] := by
     intro r i; rw [prepare_led]; simp [initState, Ledger.get_empty]
   have h2 : BIdleInv e (loopStart e) (loopStart e) (todoOf e (loopStart e)) := by
-    refine ⟨preLoop_inv e _ hprep, closed_preLoop (solid_closed e wf) _ hsol, todoOf_nodup e _, todoOf_leaf e _, ?_, ?_⟩
+    refine ⟨preLoop_inv e _ hprep, closed_preLoop (solid_closed e wf) _ hsol, todoOf_nodup e _, todoOf_leaf e _, ?_, ?_, ?_⟩
+    · intro x hx; unfold loopStart; rw [preLoop_size, prepare_size, initState_size]; exact (todoOf_mem e _ x hx).1
     · intro x hx
       refine ⟨rfl, (todoOf_mem e _ x hx).2, by unfold loopStart; exact preLoop_doneFalse e _ hdf x, fun r i => ?_⟩
       unfold loopStart
@@ -227,13 +239,18 @@ theorem runScenario_doneIdleB (e : Env) (wf : WF e) (tr : Tree e) : DoneIdleB e 
   unfold runScenario
   intro t r hel hd hfw
   rw [finishScenario_leafT e _ t hel.el.leaf] at hd hfw
-  obtain ⟨hst, hidle⟩ := h4 t r hel hd hfw
+  obtain ⟨hst, hend, hidle⟩ := h4 t r hel hd hfw
   have hc := scheduleScenario_cont e tr
   have hsd := finishScenario_sameDates e _ hc.1 hc.2
-  refine ⟨fun hns => ?_, ?_⟩
+  refine ⟨fun hns => ?_, ?_, ?_⟩
   · have := hst hns
     exact ⟨fun dp hdp ho => by rw [(hsd dp.target).2.2]; exact this.1 dp hdp ho,
       fun s hs => by rw [(hsd s).2.2]; exact this.2 s hs⟩
+  · obtain ⟨v, hv, hle⟩ := hend
+    refine ⟨v, by rw [finishScenario_leafT e _ t hel.el.leaf]; exact hv, ?_⟩
+    rw [deadlineG_congr e (loopStart e) (scheduleScenario e (prepare e (initState e))) _ t
+      (fun _ => ⟨fun dp _ _ => (hsd dp.target).1, fun s _ => (hsd s).1⟩)]
+    exact hle
   · intro L hL i hLi hid hon hnl
     rw [deadlineG_congr e (loopStart e) (scheduleScenario e (prepare e (initState e))) _ t
       (fun _ => ⟨fun dp _ _ => (hsd dp.target).1, fun s _ => (hsd s).1⟩)] at hid
